@@ -230,8 +230,15 @@ func (w *World) enabled() []Event {
 		}
 		if f := s.Fault; f != nil && op.Inst == f.Inst && !op.Applied && w.opCount[f.Inst+".hb.Update"] >= f.FromN && (op.Label != "hb" || op.Kind != "Update" || opSeq(op) >= f.FromN) {
 			op.Deadline = 0
+			lateFirst := f.Mode == "lateack" && op.Label == "hb" && op.Kind == "Update" && opSeq(op) == f.FromN
 			switch {
-			case f.Mode == "hang":
+			case lateFirst:
+				// applied at once, acknowledged (successfully) 30 ms after the library has
+				// given up waiting; everything issued afterwards hangs
+				w.apply(op)
+				op.Fault = "lateack"
+				op.NotBefore = op.TIssue + hbTimeout(s.H) + 30*ms
+			case f.Mode == "hang" || f.Mode == "lateack":
 				if op.Fault == "" {
 					op.Fault = "hang"
 				}
